@@ -144,6 +144,7 @@ def window_path(width, via_reader):
             for cuts in [()] + [(c,) for c in special]:
                 chunks = PC.split(stream, cuts)
                 w = {"kind": "p1", "chunks": chunks}
+                ctx.intend(w)
                 try:
                     _, rs = PC.read_chunks(chunks)
                 except (PathAbort, EngineLimit, EngineFault):
@@ -209,6 +210,7 @@ def after_runaway_path(n_prefix):
         for cuts in [(a,), (a, a + 2), (a // 2, a, a + 2 + len(r1))]:
             chunks = PC.split(stream, cuts)
             w = {"kind": "p1", "chunks": chunks}
+            ctx.intend(w)
             try:
                 _, rs = PC.read_chunks(chunks)
             except (PathAbort, EngineLimit, EngineFault):
